@@ -6,16 +6,17 @@ namespace MgProof.C09
 open MgModel.C09 MgModel.C09.T
 
 /-- one retracing step after the *left* child was replaced by `l'` (old height `hl0`) -/
-theorem insRetrace_left {l' r : T} (k : Int) (v : Nat) {b : Int} {hl0 : Nat} {g : Bool}
+theorem insRetrace_left {l' r : T} (k : Int) (v : Nat) (i : Nat) (p : Option Nat) {b : Int} {hl0 : Nat}
+    {g : Bool}
     (hl' : Avl l') (hr : Avl r) (hb : b = (height r : Int) - (hl0 : Int)) (hb1 : -1 ≤ b) (hb2 : b ≤ 1)
     (hh : height l' = hl0 + g.toNat)
     (hg : g = true → height l' = 1 ∨ rootBal l' ≠ some 0) :
-    ∃ t' g', insRetrace true l' k v b r g = .ok (t', g') ∧ Avl t' ∧
+    ∃ t' g', insRetrace true l' k v b r i p g = .ok (t', g') ∧ Avl t' ∧
       toList t' = toList l' ++ (k, v) :: toList r ∧
       height t' = max hl0 (height r) + 1 + g'.toNat ∧ (g' = true → rootBal t' ≠ some 0) := by
   cases g with
   | false =>
-    refine ⟨.node l' k v b r, false, by simp [insRetrace], ⟨hl', hr, ?_, hb1, hb2⟩, by simp, ?_, by simp⟩
+    refine ⟨.node l' k v b r i p, false, by simp [insRetrace], ⟨hl', hr, ?_, hb1, hb2⟩, by simp, ?_, by simp⟩
     · simp at hh; omega
     · simp at hh; simp [hh]
   | true =>
@@ -24,7 +25,7 @@ theorem insRetrace_left {l' r : T} (k : Int) (v : Nat) {b : Int} {hl0 : Nat} {g 
     rcases hb3 with rfl | rfl | rfl
     · -- balance becomes -2: rotate
       have hh2 : height l' = height r + 2 := by omega
-      obtain ⟨t', d, e, ht', hlist, hht, hd⟩ := rebalance_left k v hl' hr hh2
+      obtain ⟨t', d, e, ht', hlist, hht, hd⟩ := rebalance_left k v i p hl' hr hh2
       have hnb : rootBal l' ≠ some 0 := by
         rcases hg rfl with h | h
         · omega
@@ -33,34 +34,35 @@ theorem insRetrace_left {l' r : T} (k : Int) (v : Nat) {b : Int} {hl0 : Nat} {g 
       subst hd'
       refine ⟨t', false, by simp [insRetrace, e], ht', hlist, ?_, by simp⟩
       simp at hht ⊢; omega
-    · refine ⟨.node l' k v (-1) r, true, by simp [insRetrace], ⟨hl', hr, ?_, ?_, ?_⟩, by simp, ?_,
+    · refine ⟨.node l' k v (-1) r i p, true, by simp [insRetrace], ⟨hl', hr, ?_, ?_, ?_⟩, by simp, ?_,
         by simp [rootBal]⟩ <;> (try simp) <;> omega
-    · refine ⟨.node l' k v 0 r, false, by simp [insRetrace], ⟨hl', hr, ?_, ?_, ?_⟩, by simp, ?_,
+    · refine ⟨.node l' k v 0 r i p, false, by simp [insRetrace], ⟨hl', hr, ?_, ?_, ?_⟩, by simp, ?_,
         by simp⟩ <;> (try simp) <;> omega
 
 /-- one retracing step after the *right* child was replaced by `r'` (old height `hr0`) -/
-theorem insRetrace_right {l r' : T} (k : Int) (v : Nat) {b : Int} {hr0 : Nat} {g : Bool}
+theorem insRetrace_right {l r' : T} (k : Int) (v : Nat) (i : Nat) (p : Option Nat) {b : Int} {hr0 : Nat}
+    {g : Bool}
     (hl : Avl l) (hr' : Avl r') (hb : b = (hr0 : Int) - (height l : Int)) (hb1 : -1 ≤ b) (hb2 : b ≤ 1)
     (hh : height r' = hr0 + g.toNat)
     (hg : g = true → height r' = 1 ∨ rootBal r' ≠ some 0) :
-    ∃ t' g', insRetrace false l k v b r' g = .ok (t', g') ∧ Avl t' ∧
+    ∃ t' g', insRetrace false l k v b r' i p g = .ok (t', g') ∧ Avl t' ∧
       toList t' = toList l ++ (k, v) :: toList r' ∧
       height t' = max (height l) hr0 + 1 + g'.toNat ∧ (g' = true → rootBal t' ≠ some 0) := by
   cases g with
   | false =>
-    refine ⟨.node l k v b r', false, by simp [insRetrace], ⟨hl, hr', ?_, hb1, hb2⟩, by simp, ?_, by simp⟩
+    refine ⟨.node l k v b r' i p, false, by simp [insRetrace], ⟨hl, hr', ?_, hb1, hb2⟩, by simp, ?_, by simp⟩
     · simp at hh; omega
     · simp at hh; simp [hh]
   | true =>
     simp only [Bool.toNat_true] at hh
     have hb3 : b = -1 ∨ b = 0 ∨ b = 1 := by omega
     rcases hb3 with rfl | rfl | rfl
-    · refine ⟨.node l k v 0 r', false, by simp [insRetrace], ⟨hl, hr', ?_, ?_, ?_⟩, by simp, ?_,
+    · refine ⟨.node l k v 0 r' i p, false, by simp [insRetrace], ⟨hl, hr', ?_, ?_, ?_⟩, by simp, ?_,
         by simp⟩ <;> (try simp) <;> omega
-    · refine ⟨.node l k v 1 r', true, by simp [insRetrace], ⟨hl, hr', ?_, ?_, ?_⟩, by simp, ?_,
+    · refine ⟨.node l k v 1 r' i p, true, by simp [insRetrace], ⟨hl, hr', ?_, ?_, ?_⟩, by simp, ?_,
         by simp [rootBal]⟩ <;> (try simp) <;> omega
     · have hh2 : height r' = height l + 2 := by omega
-      obtain ⟨t', d, e, ht', hlist, hht, hd⟩ := rebalance_right k v hl hr' hh2
+      obtain ⟨t', d, e, ht', hlist, hht, hd⟩ := rebalance_right k v i p hl hr' hh2
       have hnb : rootBal r' ≠ some 0 := by
         rcases hg rfl with h | h
         · omega
@@ -73,30 +75,30 @@ theorem insRetrace_right {l r' : T} (k : Int) (v : Nat) {b : Int} {hr0 : Nat} {g
 /-- **insertion, structural part.** On a balanced search tree `ins` never fails; either the key
 is present and the call is rejected, or the new tree is balanced, its height grew by `g`, and its
 in-order sequence is the old one with `(x, xv)` inserted at the sorted position. -/
-theorem ins_spec (x : Int) (xv : Nat) : ∀ t : T, Avl t → Sorted t →
-    (ins x xv t = .ok none ∧ (find t x).isSome) ∨
-    (∃ t' g, ins x xv t = .ok (some (t', g)) ∧ Avl t' ∧ height t' = height t + g.toNat ∧
+theorem ins_spec (x : Int) (xv : Nat) (fresh : Nat) : ∀ (t : T) (par : Option Nat), Avl t → Sorted t →
+    (ins x xv fresh par t = .ok none ∧ (find t x).isSome) ∨
+    (∃ t' g, ins x xv fresh par t = .ok (some (t', g)) ∧ Avl t' ∧ height t' = height t + g.toNat ∧
       (g = true → height t' = 1 ∨ rootBal t' ≠ some 0) ∧ find t x = none ∧
       ∃ l1 l2, toList t = l1 ++ l2 ∧ toList t' = l1 ++ (x, xv) :: l2 ∧
         (∀ p ∈ l1, p.1 < x) ∧ (∀ p ∈ l2, x < p.1)) := by
   intro t
   induction t with
   | nil =>
-    intro _ _
+    intro par _ _
     right
-    refine ⟨.node .nil x xv 0 .nil, true, rfl, ⟨trivial, trivial, by simp, by omega, by omega⟩,
+    refine ⟨.node .nil x xv 0 .nil fresh par, true, rfl, ⟨trivial, trivial, by simp, by omega, by omega⟩,
       by simp, by simp, rfl, [], [], by simp, by simp, by simp, by simp⟩
-  | node l k v b r ihl ihr =>
-    intro ha hs
+  | node l k v b r i p ihl ihr =>
+    intro par ha hs
     obtain ⟨hl, hr, hb, hb1, hb2⟩ := ha
     obtain ⟨sl, sr, hlk, hkr⟩ := sorted_node.mp hs
     by_cases hxk : x = k
     · left; simp [ins, find, hxk]
     by_cases hlt : x < k
-    · rcases ihl hl sl with ⟨e, hf⟩ | ⟨l', g, e, hl', hh, hg, hfx, l1, l2, e1, e2, b1, b2⟩
+    · rcases ihl (some i) hl sl with ⟨e, hf⟩ | ⟨l', g, e, hl', hh, hg, hfx, l1, l2, e1, e2, b1, b2⟩
       · left; simp [ins, find, hxk, hlt, e, hf]
       · obtain ⟨t', g', e', ht', hlist, hht, hg'⟩ :=
-          insRetrace_left k v (hl0 := height l) hl' hr hb hb1 hb2 hh hg
+          insRetrace_left k v i p (hl0 := height l) hl' hr hb hb1 hb2 hh hg
         right
         refine ⟨t', g', by simp [ins, hxk, hlt, e, e'], ht', by simpa using hht,
           fun h => Or.inr (hg' h), by simp [find, hxk, hlt, hfx],
@@ -108,10 +110,10 @@ theorem ins_spec (x : Int) (xv : Nat) : ∀ t : T, Avl t → Sorted t →
           · exact hlt
           · exact Int.lt_trans hlt (hkr p hp)
     · have hgt : k < x := by omega
-      rcases ihr hr sr with ⟨e, hf⟩ | ⟨r', g, e, hr', hh, hg, hfx, l1, l2, e1, e2, b1, b2⟩
+      rcases ihr (some i) hr sr with ⟨e, hf⟩ | ⟨r', g, e, hr', hh, hg, hfx, l1, l2, e1, e2, b1, b2⟩
       · left; simp [ins, find, hxk, hlt, e, hf]
       · obtain ⟨t', g', e', ht', hlist, hht, hg'⟩ :=
-          insRetrace_right k v (hr0 := height r) hl hr' hb hb1 hb2 hh hg
+          insRetrace_right k v i p (hr0 := height r) hl hr' hb hb1 hb2 hh hg
         right
         refine ⟨t', g', by simp [ins, hxk, hlt, e, e'], ht', by simpa using hht,
           fun h => Or.inr (hg' h), by simp [find, hxk, hlt, hfx],
@@ -127,12 +129,12 @@ theorem ins_spec (x : Int) (xv : Nat) : ∀ t : T, Avl t → Sorted t →
 (no NULL dereference), a duplicate key is rejected and leaves the tree untouched, otherwise the
 result is again a balanced search tree with exact balance factors that maps `x` to `xv` and
 every other key as before. -/
-theorem insert_spec {t : T} (ha : Avl t) (hs : Sorted t) (x : Int) (xv : Nat) :
-    ∃ t' ok, T.insert t x xv = .ok (t', ok) ∧ Avl t' ∧ Sorted t' ∧
+theorem insert_spec {t : T} (ha : Avl t) (hs : Sorted t) (x : Int) (xv : Nat) (fresh : Nat) :
+    ∃ t' ok, T.insert t x xv fresh = .ok (t', ok) ∧ Avl t' ∧ Sorted t' ∧
       ok = (find t x).isNone ∧ (ok = false → t' = t) ∧
       (∀ y, find t' y = if ok = true ∧ y = x then some xv else find t y) ∧
       (toList t').length = (toList t).length + ok.toNat := by
-  rcases ins_spec x xv t ha hs with ⟨e, hf⟩ | ⟨t', g, e, ht', _, _, hfx, l1, l2, e1, e2, b1, b2⟩
+  rcases ins_spec x xv fresh t none ha hs with ⟨e, hf⟩ | ⟨t', g, e, ht', _, _, hfx, l1, l2, e1, e2, b1, b2⟩
   · refine ⟨t, false, by simp [T.insert, e], ha, hs, ?_, fun _ => rfl, by simp, by simp⟩
     cases h : find t x <;> simp_all
   · have hs' : Sorted t' := by
